@@ -60,10 +60,40 @@ class InProc:
         return data["result"]
 
 
+def serve_a_neighbour():
+    """Once per process, before anything is explored: this server process has already rendered ANOTHER collection with every
+    writer and reported it finished (url, size, file name).  Nothing of that may show in the answers about the explored one."""
+    if _state.get("neighbour"):
+        return
+    _state["neighbour"] = True
+    from mwlib.core import nserve, metabook
+    mb = metabook.Collection()
+    mb.append_article("Neighbour")
+    text = mb.dumps()
+    w = new_world()
+    try:
+        with contextlib.redirect_stdout(io.StringIO()):
+            cid = nserve.make_collection_id({"metabook": text, "base_url": "http://wiki.example/w/"})
+        for i, wr in enumerate(WRITERS):
+            post = {"writer": wr, "base_url": "http://wiki.example/w/"}
+            if i == 0:
+                post["metabook"] = text
+            w.app.do_render(cid, post, is_new=(i == 0))
+        for jid in list(w.wq.id2job):
+            w.wq.finishjob(jid, result={"url": "http://cache/neighbour/%s" % jid, "size": 4711, "suggested_filename": "Neighbour book"})
+        for wr in WRITERS:
+            w.app.do_render_status(cid, {"writer": wr}, is_new=False)
+    except Exception as exc:  # the prelude is part of the harness: if it cannot run, say so loudly
+        raise RuntimeError("neighbour prelude failed: %r" % (exc,))
+    finally:
+        w.close()
+
+
 def new_world():
     from mc.props.qs_world import World
     from mwlib.core import nserve
     from qs import rpcclient
+    serve_a_neighbour()
     w = World(conn_names=WORKERS + ("c", "n"))
     w.njobs = 0
     w.jobspec = {}
